@@ -173,14 +173,20 @@ def build_doc(rng, skeleton, profile, fps, tokens):
       name, val = next_style()
       b = time_value(rng, profile, fps, 0, 2) if rng.random() < 0.6 else None
       en = (b or 0) + time_value(rng, profile, fps, 1, 3) if rng.random() < 0.6 else None
+      if en is None and rng.random() < 0.1:
+        en = Fraction(0)               # a step that never applies
       e.add_animation_step(m.DiscreteAnimationStep(prop_of(name), b, en, val))
     if timed and not isinstance(e, m.Br):
       b = None
       if rng.random() < 0.45:
         b = time_value(rng, profile, fps, lo, lo + 3)
         e.set_begin(b)
-      if rng.random() < 0.45:
+      r_end = rng.random()
+      if r_end < 0.45:
         e.set_end((b or 0) + time_value(rng, profile, fps, 2, hi))
+      elif r_end < 0.49:
+        # an end of exactly zero (or not after the begin): the element is never active - not the same as no end at all
+        e.set_end(Fraction(0) if (b is None or rng.random() < 0.6) else b)
     return lang, space
 
   regions = []
@@ -402,7 +408,28 @@ def project(doc, D):
     out["regions"].append(common(r))
   N = out["N"]
 
+  alive_memo = {}
+
+  def alive(e):
+    """Does the element ever present anything?  Not when its interval is empty (end <= begin), and a container not when
+    none of its descendants does.  Such elements present nothing at any time, so whether a document carries them is
+    immaterial to "presents identically" - the IMSC reader keeps neither never-active elements nor the containers they
+    leave empty."""
+    k = id(e)
+    if k not in alive_memo:
+      if isinstance(e, m.Text):
+        alive_memo[k] = True
+      elif e.get_end() is not None and e.get_end() <= (e.get_begin() or 0):
+        alive_memo[k] = False
+      elif isinstance(e, m.Br):
+        alive_memo[k] = True
+      else:
+        alive_memo[k] = any(alive(c) for c in e)
+    return alive_memo[k]
+
   def walk(e, parent):
+    if not alive(e):
+      return
     if isinstance(e, m.Text):
       # adjacent text nodes are one text node
       if parent and N[parent - 1]["kids"]:
